@@ -188,6 +188,9 @@ fn exec_points(op: &str, t: &mut Toks, ctx: &mut Ctx) -> String {
     }
     let bb = tri.bounding_box();
     let pts = points_of(&v);
+    if pts.len() <= 300 {
+        iter_protocol_check(ctx, "iterator-protocol:triangle-points", tri.points(), 300);
+    }
     let set = set_of(&pts);
     // contains() over the box grown by 2 px
     let grown = Rectangle::new(bb.top_left - Point::new(2, 2), bb.size + Size::new(4, 4));
